@@ -6,6 +6,7 @@ import (
 	"context"
 	"errors"
 	"fmt"
+	"github.com/aldas/go-modbus-client/packet"
 	"math/rand"
 	"net"
 	"time"
@@ -441,7 +442,25 @@ func runB(c *Case, r *mon.Rec, rng *rand.Rand, frames [][]byte, ref [][]byte, h 
 	s := &server.Server{OnErrorFunc: func(error) {}}
 	ctx, cancel := context.WithCancel(context.Background())
 	served := make(chan error, 1)
-	go func() { served <- s.Serve(ctx, l, srvx.DevHandler(dev, nil)) }()
+	lock := rng.Intn(3) != 0
+	// a quarter of the runs use a device that needs time: longer than the server's write timeout (50 ms by default) for one
+	// lock-step request, or 30 ms per request so that the requests completed by one read add up to more than that. The
+	// time a handler takes is not the client's fault: the reply is still owed.
+	h2 := srvx.DevHandler(dev, nil)
+	slow := c.Seed%4 == 1
+	if slow {
+		d := 30 * time.Millisecond
+		if lock {
+			d = 70 * time.Millisecond
+		}
+		inner := h2
+		h2 = srvx.HandlerFunc(func(ctx context.Context, req packet.Request) (packet.Response, error) {
+			time.Sleep(d)
+			return inner.Handle(ctx, req)
+		})
+		r.Cover("layer", "B-slow-handler")
+	}
+	go func() { served <- s.Serve(ctx, l, h2) }()
 	defer func() {
 		sctx, sc := context.WithTimeout(context.Background(), 3*time.Second)
 		_ = s.Shutdown(sctx)
@@ -458,8 +477,7 @@ func runB(c *Case, r *mon.Rec, rng *rand.Rand, frames [][]byte, ref [][]byte, h 
 		return
 	}
 	defer cli.Close()
-	a := mon.Attrs{"layer": "B"}
-	lock := rng.Intn(3) != 0
+	a := mon.Attrs{"layer": "B", "slow_handler": slow}
 	var got []byte
 	var want []byte
 	r.Eval(1)
